@@ -575,6 +575,9 @@ fn def_template(c1: &E, c2: &E, cplace: usize, base: usize) -> Vec<Item> {
         // an integer constant that is emitted as data: a define must reach the data as well as the conditions
         konst("N", int(3)),
         Item::Use("N".into()),
+        // ... and a DERIVED integer constant (its declaration is not a literal): a define replaces it just the same
+        konst("N2", E::bin(BinOp::Add, v("N"), int(1))),
+        Item::Use("N2".into()),
         Item::Marker(0x80),
         Item::If(vec![(c1.clone(), arm1), (c2.clone(), arm2)], Some(arm3)),
     ];
@@ -600,6 +603,7 @@ fn def_extras() -> Vec<Option<(&'static str, DV)>> {
         Some(("LIVE1", DV::Int(6))),
         Some(("fun", DV::Int(5))),
         Some(("N", DV::Int(9))),
+        Some(("N2", DV::Int(20))),
     ]
 }
 
@@ -836,7 +840,7 @@ fn drive_cases(thorough: bool) -> Vec<DriveCase> {
     let mut out = vec![];
     let c1s = def_c1();
     let c2s = def_c2(false);
-    let extras = [None, Some(("lab", DV::Int(7))), Some(("Q", DV::Int(1))), Some(("a.b", DV::Int(1))), Some(("DEADK", DV::NoValue)), Some(("LIVE1", DV::Hex10)), Some(("fun", DV::Int(5))), Some(("N", DV::Int(9)))];
+    let extras = [None, Some(("lab", DV::Int(7))), Some(("Q", DV::Int(1))), Some(("a.b", DV::Int(1))), Some(("DEADK", DV::NoValue)), Some(("LIVE1", DV::Hex10)), Some(("fun", DV::Int(5))), Some(("N", DV::Int(9))), Some(("N2", DV::Int(20)))];
     let bopts: Vec<Option<DV>> = if thorough { std::iter::once(None).chain(DVALS.iter().map(|d| Some(*d))).collect() } else { vec![None, Some(DV::Int(1)), Some(DV::Bool(true))] };
     for (i1, c1) in c1s.iter().enumerate() {
         for (i2, c2) in c2s.iter().enumerate().take(if thorough { 4 } else { 2 }) {
